@@ -108,7 +108,11 @@ def make_stub_classifier():
             return arrays._wrap(out, arrays.FLOAT)
 
         def predict(self, X):
-            raise core.Unencodable("StubClassifier.predict")
+            # contract: the class with the largest predicted probability (first one on ties)
+            from symx import facade
+            P = self.predict_proba(X)
+            classes = getattr(self, "classes_", np.arange(self.n_classes))
+            return np.array([classes[int(facade.FACADE.argmax(P[i]))] for i in range(P.shape[0])])
 
     return StubClassifier
 
@@ -148,5 +152,8 @@ def real_table_classifier(table, n_classes=2):
                     if np.array_equal(np.asarray(row, dtype=float), r):
                         out[i] = p
             return out
+
+        def predict(self, X):
+            return np.arange(self.n_classes)[np.argmax(self.predict_proba(X), axis=1)]
 
     return TableClassifier(table=table, n_classes=n_classes, classes=list(range(n_classes)))
